@@ -522,10 +522,50 @@ func merge(in map[string]map[string]*federation.IntrospectionQueryResult) (d *Do
 	return fromResult(r), nil
 }
 
+func canonOrNil(d *Doc) string {
+	if d == nil {
+		return "<merge failed>"
+	}
+	return d.canon()
+}
+
 func check(c Case, renames []map[string]string) (nt bool, labels []string, sig string, err error) {
-	base, baseErr := merge(c.input(nil))
+	in := c.input(nil)
+	before, _ := json.Marshal(in)
+	base, baseErr := merge(in)
 	if baseErr != nil && strings.HasPrefix(baseErr.Error(), "PANIC") {
 		return false, nil, "panic", baseErr
+	}
+	// merging the same documents again (next sync, rollback to results that were kept) must
+	// give the same answer; a merge that rewrites the documents it was given shows up here
+	again, againErr := merge(in)
+	if (baseErr == nil) != (againErr == nil) || (baseErr == nil && base.canon() != again.canon()) {
+		after, _ := json.Marshal(in)
+		return false, nil, "not-repeatable", fmt.Errorf("merging the same documents twice gives different results (first error %v, second error %v; input documents modified by the merge: %v):\n--- first\n%s\n--- second\n%s", baseErr, againErr, string(after) != string(before), canonOrNil(base), canonOrNil(again))
+	}
+	// ... and so must merging a part of them (rollback after a deploy: only the old version is
+	// left; a service going away): same result as merging freshly decoded copies of that part
+	for _, which := range []string{"first", "last"} {
+		used, fresh := map[string]map[string]*federation.IntrospectionQueryResult{}, map[string]map[string]*federation.IntrospectionQueryResult{}
+		freshAll := c.input(nil)
+		for svc, vs := range in {
+			var names []string
+			for v := range vs {
+				names = append(names, v)
+			}
+			sort.Strings(names)
+			pick := names[0]
+			if which == "last" {
+				pick = names[len(names)-1]
+			}
+			used[svc] = map[string]*federation.IntrospectionQueryResult{pick: vs[pick]}
+			fresh[svc] = map[string]*federation.IntrospectionQueryResult{pick: freshAll[svc][pick]}
+		}
+		u, uerr := merge(used)
+		f, ferr := merge(fresh)
+		if (uerr == nil) != (ferr == nil) || (uerr == nil && u.canon() != f.canon()) {
+			return false, nil, "not-repeatable", fmt.Errorf("after one merge of all versions, merging only the %s version of every service (the same documents) differs from merging fresh copies of them: errors %v / %v\n--- same documents\n%s\n--- fresh copies\n%s", which, uerr, ferr, canonOrNil(u), canonOrNil(f))
+		}
 	}
 	// a. renaming / permutation invariance
 	for _, rn := range renames {
